@@ -239,6 +239,9 @@ def build_random_model():
     f.equation = rnd * 10.0
     s.initial_value = 0.0
     s.equation = f
+    k, k2 = m.constant("k"), m.converter("k2")
+    k.equation = 1.0
+    k2.equation = k * 2.0         # a dependant of a constant that a scenario may override with a stochastic expression string
     return m
 
 
@@ -356,10 +359,11 @@ def run_stochastic_rerun(seed, counters):
                     return {c: {float(t): float(v) for t, v in df[c].items()} for c in df.columns}
             else:
                 b = bptk()
-                b.register_model(m, scenario_manager="smR", scenario={"base": {}, "k": {"constants": {}}})
+                b.register_model(m, scenario_manager="smR", scenario={"base": {}, "rk": {"constants": {"k": "np.random.uniform(1.0, 2.0)"}}})
+                lists = lists + [["k"], ["k2"], ["k2", "k"], ["k", "rnd"]]
 
-                def run(eqs):
-                    df = b.run_scenarios(scenarios=["base"], scenario_managers=["smR"], equations=list(eqs), return_format="df")
+                def run(eqs, scen="rk"):
+                    df = b.run_scenarios(scenarios=[scen], scenario_managers=["smR"], equations=list(eqs), return_format="df")
                     return {(c.split("_")[-1] if c.startswith("smR_") else c): {float(t): float(v) for t, v in df[c].items()} for c in df.columns}
             union = {}
             for i in range(5):
@@ -371,6 +375,11 @@ def run_stochastic_rerun(seed, counters):
                         return dict(kind="rerun-differs", via=via, equation=e, run=i, equations=eqs, first=union[e], now=series)
                     union.setdefault(e, series)
                 w = judge_frame(union, [])
+                if w is None and "k" in union and "k2" in union:
+                    for t in union["k"]:
+                        if abs(union["k2"][t] - 2.0 * union["k"][t]) > 1e-9:
+                            w = dict(kind="ambiguous", identity="k2 == 2*k (k overridden by a stochastic expression)", t=t, k=union["k"][t], k2=union["k2"][t])
+                            break
                 if w is not None:
                     w.update(via=via, run=i, equations=eqs, note="identity over the union of the frames reported so far")
                     return w
